@@ -31,7 +31,10 @@ Fixpoint read_full_aux (need : N) (got : bool) (cs : list (list byte)) (t : tail
   | c :: cs' =>
     if need <=? len c then
       ((take need c, None), (if need =? len c then cs' else drop need c :: cs'))
-    else let '((r, e), rest) := read_full_aux (need - len c) true cs' t in ((c ++ r, e), rest)
+    else
+      (* io.ReadAtLeast: ErrUnexpectedEOF only when n > 0 BYTES were read — an idle
+         (0, nil) read (an empty chunk) does not count *)
+      let '((r, e), rest) := read_full_aux (need - len c) (got || negb (len c =? 0)) cs' t in ((c ++ r, e), rest)
   end.
 Definition read_full (need : N) (s : src) : (list byte * option rerr) * src :=
   let '(r, rest) := read_full_aux need false (chunks s) (tl s) in (r, mkSrc rest (tl s)).
